@@ -40,17 +40,14 @@ static void* remote_main(void* arg) {
     if (s >= 0 && slots[s].p) op_free_slot(s, FR_free);
     vf_point();
     if (r->own_allocs > 0 && nown < 8 && (vf_randn(2) == 0)) {
-      int before = next_id;
-      op_alloc_ex(A_malloc, r->own_lo + (size_t)vf_randn(r->own_hi - r->own_lo + 1), 0, 0, 0, 0);
-      if (next_id != before) own[nown++] = slot_of_last();
-      r->own_allocs--;
+      int ns_ = op_alloc_ex(A_malloc, r->own_lo + (size_t)vf_randn(r->own_hi - r->own_lo + 1), 0, 0, 0, 0); if (ns_ >= 0) { own[nown++] = ns_; }r->own_allocs--;
     }
     if (nown > 0 && vf_randn(2) == 0) { int s2 = own[--nown]; if (slots[s2].p) op_free_slot(s2, FR_free); }
   }
   if (r->collect) { do_collect(0); }
   if (!r->exit_with_live) { while (nown > 0) { int s2 = own[--nown]; if (slots[s2].p) op_free_slot(s2, FR_free); } }
+  vf_logf("{\"e\":\"tdone\",\"t\":%d}", r->t); vf_log_line_end();   /* logged first: the thread's heap descriptors are released inside mi_thread_done */
   vf_in_call = 1; mi_thread_done(); vf_in_call = 0;
-  vf_logf("{\"e\":\"tdone\",\"t\":%d}", r->t); vf_log_line_end();
   return NULL;
 }
 
@@ -61,7 +58,7 @@ static void prog_page(int nremote, int owner_ops, int variant /* 0 plain, 1 heap
   /* fill one page (and a bit) of the owner heap */
   int nblk = 7 + (int)vf_randn(3);
   int mine[64], nm = 0;
-  for (int i = 0; i < nblk; i++) { int before = next_id; op_alloc_ex(A_heap_malloc, blk_lo + (size_t)vf_randn(blk_hi - blk_lo + 1), 0, 0, hi, 0); if (next_id != before) mine[nm++] = slot_of_last(); }
+  for (int i = 0; i < nblk; i++) { int ns_ = op_alloc_ex(A_heap_malloc, blk_lo + (size_t)vf_randn(blk_hi - blk_lo + 1), 0, 0, hi, 0); if (ns_ >= 0) { mine[nm++] = ns_; } }
   /* hand blocks to the remotes */
   for (int k = 0; k < nremote; k++) {
     role_t* r = &roles[k + 1]; memset(r, 0, sizeof(*r));
@@ -77,7 +74,7 @@ static void prog_page(int nremote, int owner_ops, int variant /* 0 plain, 1 heap
     vf_point();
     int c = (int)vf_randn(10);
     if (variant == 1 && !deleted && hi > 0 && i == owner_ops / 2) { heap_delete_op(hi); deleted = 1; hi = 0; continue; }
-    if (c < 4) { int before = next_id; op_alloc_ex(A_heap_malloc, blk_lo + (size_t)vf_randn(blk_hi - blk_lo + 1), 0, 0, hi, 0); if (next_id != before && nm < 64) mine[nm++] = slot_of_last(); }
+    if (c < 4) { int ns_ = op_alloc_ex(A_heap_malloc, blk_lo + (size_t)vf_randn(blk_hi - blk_lo + 1), 0, 0, hi, 0); if (ns_ >= 0 && nm < 64) { mine[nm++] = ns_; } }
     else if (c < 7 && nm > 0) { int j = (int)vf_randn((uint64_t)nm); int s = mine[j]; mine[j] = mine[--nm]; if (slots[s].p) op_free_slot(s, FR_free); }
     else if (c < 9 || variant == 2) {
       ret_t r; memset(&r, 0, sizeof(r)); int force = (int)vf_randn(2);
@@ -109,8 +106,8 @@ static void* consumer_main(void* arg) {
     else vf_hook_yield();
     vf_point();
   }
+  vf_logf("{\"e\":\"tdone\",\"t\":%d}", r->t); vf_log_line_end();   /* logged first: the thread's heap descriptors are released inside mi_thread_done */
   vf_in_call = 1; mi_thread_done(); vf_in_call = 0;
-  vf_logf("{\"e\":\"tdone\",\"t\":%d}", r->t); vf_log_line_end();
   return NULL;
 }
 static long count_areas(mi_heap_t* h) { areas_t v; v.count = 0; v.first = 1; int saved = vf_log_enabled; vf_log_enabled = 0; mi_heap_visit_blocks(h, false, areas_visitor, &v); vf_log_enabled = saved; return v.count; }
@@ -119,9 +116,7 @@ static void prog_pc(int nconsumers, int rounds, size_t lo, size_t hi_) {
   vf_sched_go();
   for (int i = 1; i <= rounds; i++) {
     while (pc_nbox >= 6) { vf_hook_yield(); }
-    int before = next_id;
-    op_alloc_ex(A_malloc, lo + (size_t)vf_randn(hi_ - lo + 1), 0, 0, 0, 0);
-    if (next_id != before) { pc_box[pc_nbox++] = slot_of_last(); }
+    int ns_ = op_alloc_ex(A_malloc, lo + (size_t)vf_randn(hi_ - lo + 1), 0, 0, 0, 0); if (ns_ >= 0) { pc_box[pc_nbox++] = ns_; }
     vf_point();
     long areas = count_areas(hps[0].hp);
     vf_logf("{\"e\":\"round\",\"k\":%d,\"n\":%d,\"areas\":%ld,\"mapped\":%ld}", i, rounds, areas, statm_pages(0)); vf_log_line_end();
@@ -142,8 +137,8 @@ static void* exiter_main(void* arg) {
   /* free some of its own blocks and some foreign ones, leave the rest behind */
   for (int i = 0; i < 4; i++) { int s = pick_live(); if (s >= 0 && vf_randn(2) == 0) op_free_slot(s, FR_free); vf_point(); }
   if (r->collect) do_collect((int)vf_randn(2));
+  vf_logf("{\"e\":\"tdone\",\"t\":%d}", r->t); vf_log_line_end();   /* logged first: the thread's heap descriptors are released inside mi_thread_done */
   vf_in_call = 1; mi_thread_done(); vf_in_call = 0;
-  vf_logf("{\"e\":\"tdone\",\"t\":%d}", r->t); vf_log_line_end();
   return NULL;
 }
 static void prog_exit(int nthreads, int main_ops, size_t lo, size_t hi_) {
@@ -162,6 +157,102 @@ static void prog_exit(int nthreads, int main_ops, size_t lo, size_t hi_) {
   for (int s = 0; s < MAXSLOTS; s++) if (slots[s].p) op_free_slot(s, FR_free);
   do_collect(1);
   ev_quiesce(2);      /* born >= 2 semantics are not used here: only DirtyAllReleased / QuiesceNoLive apply meaningfully */
+}
+
+/* ---- program "arena": C14 (and the adoption part of C15): threads with heaps bound to one shared managed arena allocate and
+   free segment-sized and multi-block huge objects while another thread triggers purges; at the end the arena must be
+   completely allocatable again */
+static int arena_idx = -1;
+static const size_t arena_sizes[] = { 20u << 20, 20u << 20, 40u << 20, 70u << 20, 130u << 20, 1u << 20, 200000 };
+static void* arena_worker(void* arg) {
+  role_t* r = (role_t*)arg;
+  cur_t = r->t; cur_theap = r->heapid; vf_cur_thread = r->t;
+  vf_logf("{\"e\":\"tstart\",\"t\":%d,\"h\":%d}", r->t, r->heapid); vf_log_line_end();
+  vf_point();
+  int hi = heap_new_in_arena_op(arena_idx);
+  int own[8], nown = 0;
+  if (hi >= 0) {
+    for (int i = 0; i < r->own_allocs; i++) {
+      int ns_ = op_alloc_ex(vf_randn(4) == 0 ? A_heap_zalloc : A_heap_malloc, arena_sizes[vf_randn(sizeof(arena_sizes) / sizeof(size_t))] + vf_randn(4096), 0, 0, hi, 0); if (ns_ >= 0 && nown < 8) { own[nown++] = ns_; }vf_point();
+      if (nown > 0 && vf_randn(2) == 0) { int j = (int)vf_randn((uint64_t)nown); int s2 = own[j]; own[j] = own[--nown]; if (slots[s2].p) op_free_slot(s2, FR_free); }
+    }
+    if (!r->exit_with_live) while (nown > 0) { int s2 = own[--nown]; if (slots[s2].p) op_free_slot(s2, FR_free); vf_point(); }
+    /* either delete the heap explicitly (blocks left behind migrate to the thread's backing heap; the model then stops treating the
+       arena as private) or let mi_thread_done release it: the arena stays private and adoption of the abandoned segments by
+       unbound heaps must not hand its memory out (C15) */
+    if (r->collect) heap_delete_op(hi); else { hps[hi].alive = 0; hps[hi].descid = 0; }
+  }
+  vf_logf("{\"e\":\"tdone\",\"t\":%d}", r->t); vf_log_line_end();   /* logged first: the thread's heap descriptors are released inside mi_thread_done */
+  vf_in_call = 1; mi_thread_done(); vf_in_call = 0;
+  return NULL;
+}
+static void* purger_main(void* arg) {
+  role_t* r = (role_t*)arg;
+  cur_t = r->t; cur_theap = r->heapid; vf_cur_thread = r->t;
+  vf_logf("{\"e\":\"tstart\",\"t\":%d,\"h\":%d}", r->t, r->heapid); vf_log_line_end();
+  for (int i = 0; i < 6; i++) { vf_point(); vf_clock_advance(60 + (long)vf_randn(200)); do_collect((int)vf_randn(3) == 0); }
+  vf_logf("{\"e\":\"tdone\",\"t\":%d}", r->t); vf_log_line_end();   /* logged first: the thread's heap descriptors are released inside mi_thread_done */
+  vf_in_call = 1; mi_thread_done(); vf_in_call = 0;
+  return NULL;
+}
+typedef struct { int first; uintptr_t a0; size_t nblocks; unsigned char hit[256]; } ablk_t;
+static bool ablk_visitor(const mi_heap_t* heap, const mi_heap_area_t* area, void* block, size_t bsize, void* arg) {
+  ablk_t* v = (ablk_t*)arg; (void)heap; (void)bsize;
+  if (block != NULL) return true;
+  uintptr_t x = (uintptr_t)area->blocks;
+  if (x >= v->a0 && x < v->a0 + v->nblocks * MI_ARENA_BLOCK_SIZE) { size_t i0 = (x - v->a0) / MI_ARENA_BLOCK_SIZE, i1 = (x + area->reserved - 1 - v->a0) / MI_ARENA_BLOCK_SIZE; for (size_t i = i0; i <= i1 && i < 256; i++) v->hit[i] = 1; }
+  return true;
+}
+static void prog_arena(int nworkers) {
+  max_fill = 8192;
+  arena_idx = arena_setup((size_t)10 * (32u << 20) + 12345, 4096 * 5, 1);
+  if (arena_idx < 0) return;
+  int hm = heap_new_in_arena_op(arena_idx);
+  for (int k = 0; k < nworkers; k++) { role_t* r = &roles[k + 1]; memset(r, 0, sizeof(*r)); r->t = k + 1; r->heapid = next_heap_id++; r->own_allocs = 2 + (int)vf_randn(3); r->exit_with_live = (int)vf_randn(3) == 0; r->collect = (int)vf_randn(4) == 0; vf_spawn(arena_worker, r); }
+  { role_t* r = &roles[nworkers + 1]; memset(r, 0, sizeof(*r)); r->t = nworkers + 1; r->heapid = next_heap_id++; vf_spawn(purger_main, r); }
+  vf_sched_go();
+  for (int i = 0; i < 6 && hm >= 0; i++) {
+    vf_point();
+    if (vf_randn(2)) op_alloc_ex(A_heap_malloc, arena_sizes[vf_randn(sizeof(arena_sizes) / sizeof(size_t))], 0, 0, hm, 0);
+    else { int s = pick_live(); if (s >= 0) op_free_slot(s, FR_free); }
+    if (vf_randn(3) == 0) op_alloc_ex(A_malloc, 100 + vf_randn(100000), 0, 0, 0, 0);     /* default heap: must stay outside the exclusive arena */
+  }
+  vf_wait_all();
+  op_checkall();
+  /* adoption: the exited threads may have left blocks of their bound heaps behind (abandoned segments inside the exclusive arena);
+     a forced collect of the (unbound) main heap reclaims abandoned segments; its later allocations of the same size classes must
+     still come from outside the exclusive arena */
+  do_collect(1);
+  for (int i = 0; i < 6; i++) op_alloc_ex(A_malloc, (i % 2 ? 200000 : (1u << 20)) + vf_randn(4096), 0, 0, 0, 0);
+  op_checkall();
+  for (int s = 0; s < MAXSLOTS; s++) if (slots[s].p) op_free_slot(s, FR_free);
+  do_collect(1);
+  vf_clock_advance(5000); do_collect(1);
+  if (hm >= 0) {   /* mi_collect only collects the default heap: blocks of the bound heap freed by other threads are still pending there */
+    ret_t r; memset(&r, 0, sizeof(r));
+    log_call_begin("heap_collect", hps[hm].id, 0, 1, 0, 0, 0, "ok", 0, 0); log_obs(-1, -1, 0); log_call_end();
+    mi_heap_collect(hps[hm].hp, true);
+    log_ret_begin("heap_collect", &r); log_obs(-1, -1, 0); log_ret_end();
+  }
+  /* measure: which arena blocks are still in use, which of them hold a page area of an existing heap; then refill with 1-block objects */
+  mi_arena_t* arena = mi_arena_from_index(mi_arena_id_index(ars[arena_idx].aid));
+  size_t nblocks = arena->block_count;
+  ablk_t v; memset(&v, 0, sizeof(v)); v.a0 = (uintptr_t)arena->start; v.nblocks = nblocks;
+  int saved = vf_log_enabled; vf_log_enabled = 0;
+  for (int i = 0; i < MAXHEAPS; i++) if (hps[i].alive && hps[i].hp != NULL && (i == 0 || i == hm)) mi_heap_visit_blocks(hps[i].hp, false, ablk_visitor, &v);
+  vf_log_enabled = saved;
+  vf_logf("{\"e\":\"refill\",\"blocks\":%zu,\"inuse\":[", nblocks);
+  int first = 1;
+  for (size_t i = 0; i < nblocks; i++) if (_mi_bitmap_is_claimed(arena->blocks_inuse, arena->field_count, 1, mi_bitmap_index_create(i / 64, i % 64))) { vf_logf("%s%zu", first ? "" : ",", i); first = 0; }
+  vf_logf("],\"areas\":["); first = 1;
+  for (size_t i = 0; i < nblocks && i < 256; i++) if (v.hit[i]) { vf_logf("%s%zu", first ? "" : ",", i); first = 0; }
+  int got = 0;
+  vf_log_enabled = 0;
+  void* ps[64];
+  while (got < 64 && hm >= 0) { void* p = mi_heap_malloc(hps[hm].hp, 20u << 20); if (!p) break; ps[got++] = p; }
+  for (int i = 0; i < got; i++) mi_free(ps[i]);
+  vf_log_enabled = saved;
+  vf_logf("],\"got\":%d}", got); vf_log_line_end();
 }
 
 /* ---- one execution (in a forked child) */
@@ -188,6 +279,7 @@ static int run_one(const char* out, const char* prog, uint64_t seed, int argc, c
   else if (!strcmp(prog, "page-delete")) prog_page(nremote, 10 + (int)vf_randn(8), 1, 1);
   else if (!strcmp(prog, "page-collect")) prog_page(nremote, 12, 2, 1);
   else if (!strcmp(prog, "pc")) prog_pc(1 + (int)vf_randn(2), 2400, blk_lo, blk_hi);
+  else if (!strcmp(prog, "arena")) prog_arena(2 + (int)vf_randn(2));
   else if (!strcmp(prog, "exit")) prog_exit(2 + (int)vf_randn(2), 14 + (int)vf_randn(10), blk_lo, blk_hi);
   else { fprintf(stderr, "unknown program %s\n", prog); return 2; }
   vf_logf("{\"e\":\"end\",\"steps\":%ld,\"switches\":%ld,\"ophash\":%lu}", vf_step, vf_switches, vf_ophash % 1000000007ul); vf_log_line_end();
